@@ -17,6 +17,7 @@ use libp2p_identity::PeerId;
 use web_time::Instant;
 
 pub use crate::{
+    config::TopicMeshConfig,
     handler::{Handler, HandlerEvent, HandlerIn},
     protocol::GossipsubCodec,
     types::{
